@@ -504,6 +504,10 @@ func (d *Pegnetd) SyncBlock(ctx context.Context, tx *sql.Tx, height uint32) erro
 			if (rates == nil || len(rates) == 0) && height >= config.V202EnhanceActivation {
 				rates, _, err = d.Pegnet.SelectMostRecentRatesBeforeHeight(ctx, tx, height)
 			}
+			if err != nil {
+				// the earlier rates could not be read: retry the block rather than skip the payout
+				return err
+			}
 
 			// If no rates for second time, skip Snapshot logic
 			// otherwise proceed with payout
